@@ -24,13 +24,13 @@ Hypothesis BUF_u32 : N.of_nat BUF < U32_LIMIT.
 Notation CInv := (CInv BUF).
 Notation Inv := (Inv BUF).
 
-Theorem server_read_exact w toks fd w' ys x ph :
+Theorem server_read_exact w toks fd kk w' ys x ph :
   Inv w toks -> alookup fd (w_conns w) = Some x -> CInv (sc_conn x) ph ->
   k_tosrv (client_of w (sc_client x)) <> [] ->
-  handle_event BUF w (EvIn fd) = inl (w', ys) ->
+  handle_event BUF w (EvIn fd kk) = inl (w', ys) ->
   let c := sc_conn x in
   let t := k_tosrv (client_of w (sc_client x)) in
-  let d := firstn (Nat.min (BUF - length (c_win c)) (length t)) t in
+  let d := firstn (read_amount kk (BUF - length (c_win c)) (length t)) t in
   d <> [] /\
   exists y, alookup fd (w_conns w') = Some y /\ sc_gid y = sc_gid x /\ sc_client y = sc_client x /\
     k_tosrv (client_of w' (sc_client x)) = skipn (length d) t /\
@@ -49,12 +49,15 @@ Proof.
   intros HI HL I Hne. cbn [Server.handle_event]. rewrite HL. cbn zeta.
   assert (Hshort : (length (c_win (sc_conn x)) < BUF)%nat) by (eapply conn_win_short; eauto).
   set (cl := client_of w (sc_client x)) in *.
-  set (n := Nat.min (BUF - length (c_win (sc_conn x))) (length (k_tosrv cl))).
+  set (n := read_amount kk (BUF - length (c_win (sc_conn x))) (length (k_tosrv cl))).
+  assert (Hra : (n <= (BUF - length (c_win (sc_conn x))) /\ n <= (length (k_tosrv cl)) /\ (1 <= (BUF - length (c_win (sc_conn x))) -> 1 <= (length (k_tosrv cl)) -> 1 <= n))%nat)
+    by (unfold n, read_amount; destruct (Nat.eqb kk 0) eqn:Ek; [|apply Nat.eqb_neq in Ek]; lia).
+  destruct Hra as (Ra1 & Ra2 & Ra3).
   assert (Hn : (1 <= n <= length (k_tosrv cl))%nat).
-  { unfold n. destruct (k_tosrv cl); [congruence|]. cbn [length]. lia. }
+  { split; [|exact Ra2]. apply Ra3; [lia|]. destruct (k_tosrv cl); [congruence|]. cbn [length]. lia. }
   assert (Ld : length (firstn n (k_tosrv cl)) = n) by (rewrite firstn_length; lia).
   destruct (firstn n (k_tosrv cl)) as [|b bs] eqn:Fn; [cbn in Ld; lia|].
-  assert (Hlen : (length (c_win (sc_conn x)) + length (b :: bs) <= BUF)%nat) by (rewrite Ld; unfold n; lia).
+  assert (Hlen : (length (c_win (sc_conn x)) + length (b :: bs) <= BUF)%nat) by (rewrite Ld; lia).
   pose proof (try_read_data BUF BUF_min BUF_u32 (sc_conn x) ph (b :: bs) [] I ltac:(discriminate) Hlen) as D.
   intros H. split; [discriminate|].
   assert (AF : forall c0 : conn, add_files c0 [] = c0).
